@@ -39,19 +39,29 @@ type replayT struct {
 
 var (
 	run      *evid.Run
-	vioTotal atomic.Int64
-	capOnce  sync.Once
+	vioTotal atomic.Int64 // violations of the part that is running
+	vioCap   atomic.Bool
+	partName string
 )
 
-const vioStop = 2000
+const vioStop = 500
 
-// tooMany stops an enumeration that is drowning in violations (a broken tree): the run is then
-// reported as not exhaustive, the verdict stays "violation".
+// startPart resets the per-part violation counter.
+func startPart(name string) {
+	partName = name
+	vioTotal.Store(0)
+	vioCap.Store(false)
+}
+
+// tooMany stops the enumeration of a part that is drowning in violations (a broken tree): the run
+// is then reported as not exhaustive, the verdict stays "violation"; the other parts still run.
 func tooMany() bool {
 	if vioTotal.Load() < vioStop {
 		return false
 	}
-	capOnce.Do(func() { run.Cap(fmt.Sprintf("enumeration cut short after %d violations", vioStop)) })
+	if vioCap.CompareAndSwap(false, true) {
+		run.Cap(fmt.Sprintf("part %s cut short after %d violations", partName, vioStop))
+	}
 	return true
 }
 
@@ -132,15 +142,19 @@ func main() {
 		run.Cap("C15_ONLY=" + only)
 	}
 	if only == "" || only == "pts" {
+		startPart("pts-continuation")
 		partPTS()
 	}
 	if only == "" || only == "late" {
+		startPart("late-track")
 		partLate()
 	}
 	if only == "" || only == "sr" {
+		startPart("sender-receiver")
 		partSR()
 	}
 	if only == "" || only == "ntp" {
+		startPart("ntp")
 		partNTP()
 	}
 	stopProf()
